@@ -61,6 +61,21 @@ def run(ctx):
             trunc.append(enc.Case(c.fam + '/alltrunc', c.op, c.buf[:p], [], None))
     common.run_differential(ctx, trunc, common.proj_trunc,
                             classify=lambda c, r: 'a strict prefix of the structure must not yield a value' if r.startswith('ok ') else None)
+    # every (hash, signature) algorithm pair inside an SCT, single and in a two-entry list: all 65536 pairs in the thorough tier,
+    # every 13th plus every pair of registered algorithms and its neighbours in the quick tier
+    pairs = range(65536) if ctx.thorough else sorted(set(range(0, 65536, 13)) | set(common.interesting_values(65536)))
+    sw = []
+    for v in pairs:
+        h, g = v >> 8, v & 255
+        sl = (v * 7) % 5
+        tail = bytes(32) + (v * 2654435761 % 2 ** 64).to_bytes(8, 'big') + b'\0\0' + bytes([h, g]) + sl.to_bytes(2, 'big') + b'\x99' * sl
+        entry = (1 + len(tail)).to_bytes(2, 'big') + b'\0' + tail
+        val = '(SCTE 0 %s %d +0 (DSig (some (P %d %d)) %s))' % (core.span(3, 32), v * 2654435761 % 2 ** 64, h, g, core.span(3 + 32 + 8 + 2 + 2 + 2, sl))
+        sw.append(enc.Case('alg_pair_sweep', ('sct',), entry, [], None, expect='ok 0 ' + val))
+        if v % 5 == 0:
+            val2 = val.replace('@3+32', '@5+32').replace(core.span(49, sl), core.span(51, sl))
+            sw.append(enc.Case('alg_pair_sweep_list', ('sct_list',), len(entry).to_bytes(2, 'big') + entry, [], None, expect='ok 0 [%s]' % val2))
+    common.run_exact(ctx, sw)
     ov = overrun_cases(ctx)
     def cls(c, r):
         if not r.startswith('ok '):
@@ -79,7 +94,7 @@ def run(ctx):
     common.run_cg(ctx, ('sct ', 'sct_list ', 'ext_c_signed_certificate_timestamp '), common.proj_trunc)
     common.lean_failure_violation(ctx, ok)
     return ctx.finish(LEVEL,
-        rule='SCT entries and lists of 0..n SCTs from the independent RFC 6962 encoder (all versions, timestamps over the u64 range, extension/signature lengths at boundaries; exact), suffixes, nested length corruptions and truncations (differential), every strict prefix of short encodings (class: never a value; Incomplete vs rejection as the model), entry-overrun (exact: the preceding SCTs only) and list-overrun (class: no value); the captured list of tests/; distinct = (family, outcome shape)',
+        rule='SCT entries and lists of 0..n SCTs from the independent RFC 6962 encoder (all versions, timestamps over the u64 range, extension/signature lengths at boundaries; exact), suffixes, nested length corruptions and truncations (differential), every (hash, signature) pair inside an SCT (exact), every strict prefix of short encodings (class: never a value; Incomplete vs rejection as the model), entry-overrun (exact: the preceding SCTs only) and list-overrun (class: no value); the captured list of tests/; distinct = (family, outcome shape)',
         checker_cmd='cd /verif/lean && lake build TlsModel.Props.C14', assumptions=[])
 
 
